@@ -15,7 +15,7 @@ From Coq Require Import QArith ZArith List Bool Arith.
 Import ListNotations.
 Require Import SC3.model.TaskQ SC3.model.RtClock.
 Require Import SC3.proofs.C09_order SC3.proofs.C08_sys SC3.proofs.C08_facts SC3.proofs.C08_mon
-  SC3.proofs.C08_app SC3.proofs.C08_progress.
+  SC3.proofs.C08_app SC3.proofs.C08_progress SC3.proofs.C08_retime.
 Local Open Scope Q_scope.
 
 (* ========================= SystemClock / TempoClock ========================================= *)
@@ -124,6 +124,26 @@ Theorem main_time_frozen_only_inside_awake :
      main_time_frozen s = true /\ main_time_frozen s' = false) /\
   (forall s, main_time_frozen s = true -> exists nb t k, c_pc s = PAwake nb t k).
 Proof. split; [exact frozen_reset_on_every_exit | exact frozen_only_in_awake]. Qed.
+
+(* every tempo / beat changing entry point of TempoClock (tempo setter, etempo, beats setter; [retime] is their
+   code line by line) keeps the beat count continuous at its anchor -- the caller's logical time for tempo and
+   beats, the physical present for etempo -- so a pending beat b lands at anchor + (b - beats at the anchor) / v:
+   with v > 0 nothing that is still ahead at the anchor becomes due before the anchor.  (That the running clock
+   uses exactly these maps is checked on every trace by mon_retime.) *)
+Theorem tempo_changes_are_continuous_at_their_anchor :
+  (forall m a v, ~ tm_tempo m == 0 ->
+     secs2beats (retime RTempo m a v) a == secs2beats m a /\
+     secs2beats (retime REtempo m a v) a == secs2beats m a /\
+     secs2beats (retime RBeats m a v) a == v) /\
+  (forall k m a v b, ~ tm_tempo m == 0 -> ~ v == 0 -> k <> RBeats ->
+     beats2secs (retime k m a v) b == a + (b - secs2beats m a) / v) /\
+  (forall k m a v b, ~ tm_tempo m == 0 -> 0 < v -> k <> RBeats ->
+     secs2beats m a <= b -> a <= beats2secs (retime k m a v) b) /\
+  (forall m a v b, ~ tm_tempo m == 0 -> beats2secs (retime RBeats m a v) b == a + (b - v) / tm_tempo m).
+Proof.
+  split; [exact retime_continuous |]. split; [exact retime_deadline |].
+  split; [exact retime_not_before_anchor | exact retime_beats_deadline].
+Qed.
 
 (* ------------------------- progress ("every task ... is awakened") ------------------------------
    Liveness proper needs the OS: a notified or timed-out wait returns, the time read advances,
@@ -322,6 +342,16 @@ Example ex_fair_run :
     next_clock_event s (1 # 2) CTimeout ROther = Some (EWaitEnd CTimeout).
 Proof. eexists. eexists. vm_compute. repeat split; reflexivity. Qed.
 
+(* tempo 1 since 0; at 1/2 s etempo(2): the map is (2, 1/2, 1/2), beat 1 lands at 3/4 s.  Converting the elapsed
+   beats with the NEW tempo (base beat 1 instead of 1/2) is not what etempo computes: beat 1 would be due at once. *)
+Example ex_retime :
+  tmap_eqb (retime REtempo (mkTM 1 0 0) (1 # 2) 2) (mkTM 2 (1 # 2) (1 # 2)) = true /\
+  Qeq_bool (beats2secs (retime REtempo (mkTM 1 0 0) (1 # 2) 2) 1) (3 # 4) = true /\
+  tmap_eqb (mkTM 2 (1 # 2) 1) (retime REtempo (mkTM 1 0 0) (1 # 2) 2) = false /\
+  mon_retime (mkTM 1 0 0) [(REtempo, (1 # 2), 2)] [ETempo (mkTM 2 (1 # 2) (1 # 2)); ENotify STempo] = true /\
+  mon_retime (mkTM 1 0 0) [(REtempo, (1 # 2), 2)] [ETempo (mkTM 2 (1 # 2) 1); ENotify STempo] = false.
+Proof. repeat split; vm_compute; reflexivity. Qed.
+
 (* the hypotheses of ready_popped_in_time_then_fifo_order and of the resched step are met *)
 Example ex_pop_step :
   exists s s', run (init KSys tm_id) (firstn 11 ex_trace) = Some s /\
@@ -359,3 +389,4 @@ Print Assumptions sleeps_only_when_nothing_is_due.
 Print Assumptions fair_run_awakens_every_pending_task.
 Print Assumptions appclock_tick_pops_and_wakes_in_order.
 Print Assumptions appclock_clear_stop.
+Print Assumptions tempo_changes_are_continuous_at_their_anchor.
